@@ -52,9 +52,28 @@ for c in man["checks"]:
     rows.append(f"| {pid} | {lvl} | {len(cov.get('theorems', []))} | {tr} | {esc(su)} | {ev['wall_s']:.0f} s |")
 checks = "\n".join(rows)
 
+reach = ""
+try:
+    cm = json.load(open(os.path.join(HERE, "tools", "coverage_map.json")))
+    t = cm["totals"]
+    byfile = {}
+    for r in cm["functions"]:
+        f = byfile.setdefault(r["file"], [0, 0, []])
+        f[0] += r["executed"]; f[1] += r["statements"]
+        if r["executed"] < r["statements"]:
+            f[2].append(f"`{r['function']}` {r['executed']}/{r['statements']}")
+    rows = [f"Statements of `/repo/tempest` executed by the quick tier of all 20 checks together: **{t['executed']} of {t['statements']}**"
+            f" (branches {t['branches_executed']} of {t['branches']}); measured with coverage.py by `tools/coverage_map.sh` (diagnostic, not part of any verdict).", "",
+            "| file | statements reached (inside functions) | functions not fully reached (reached/total statements) |", "|---|---|---|"]
+    for f, (e, n, miss) in sorted(byfile.items()):
+        rows.append(f"| `{f}` | {e}/{n} | {esc(', '.join(miss)) or '—'} |")
+    reach = "\n".join(rows)
+except Exception as ex:
+    reach = f"(no coverage map: {ex})"
+
 p = os.path.join(HERE, "DESIGN.md")
 s = open(p).read()
-for tag, body in (("FINDINGS", findings), ("SEEDED", seeded), ("CHECKS", checks)):
+for tag, body in (("FINDINGS", findings), ("SEEDED", seeded), ("CHECKS", checks), ("REACH", reach)):
     a, b = f"<!-- BEGIN {tag} -->", f"<!-- END {tag} -->"
     if a in s:
         s = s[:s.index(a) + len(a)] + "\n" + body + "\n" + s[s.index(b):]
